@@ -640,7 +640,7 @@ func genAtom(rng *rand.Rand) cond {
 		v := pickv()
 		return atom{key, "not like", []string{string([]rune(v)[:1]) + "*"}}
 	case 6:
-		return atom{key, "=~", []string{[]string{"^h1", "eu", "s0[0-3]", "svc.*", "^db$", "1$"}[rng.Intn(6)]}}
+		return atom{key, "=~", []string{[]string{"^h1", "eu", "s0[0-3]", "svc.*", "^db$", "1$", "(?i)^H1", "(?i)^SVC", "^(?i)EU", "(?i)^(S0)[0-3]"}[rng.Intn(10)]}}
 	default:
 		return atom{key, "!~", []string{[]string{"^h1", "eu", "s0[0-3]", "svc"}[rng.Intn(4)]}}
 	}
